@@ -71,13 +71,15 @@ def trace_obligations(uname, fn, modules, make_args, spec, requires=(), prop=Non
             # with chain_order the components are proof steps: earlier ones (obligations of this same unit) are hypotheses
             o = make_ob("%s.path%d.out%d" % (uname, pi, j), hyps + (proved if chain_order is not None else []), goal,
                         kind="trace", fn=uname, prop=prop)
+            o.trace_info = (j, ST.term(w), list(pc))
             proved = proved + [goal]
             o.trivial = z3.is_true(z3.simplify(goal))
             obs.append(o)
     ax = K.SINK.drain()
     for o in obs:
         o.extra_hyps = list(ax)
-    info = dict(paths=len(paths), numpy_callables=sorted(tr.used_np),
+    from . import treplay
+    info = dict(paths=len(paths), numpy_callables=sorted(tr.used_np), replayer=treplay.make_replayer(fn, make_args, list(tr.assume), outputs),
                 source_sha=hashlib.sha256(inspect.getsource(getattr(fn, "__wrapped__", fn)).encode()).hexdigest()[:16]
                 if hasattr(fn, "__code__") else None)
     return obs, info
